@@ -208,7 +208,7 @@ def run(ctx):
         ops = json.load(open(ctx.replay)).get("ops", [])
     else:
         ops = [l.rstrip("\n") for l in open("props/C41/corpus.ops") if l.strip() and not l.startswith("#")]
-        for _ in range(ctx.scale(500, 12000)):
+        for _ in range(ctx.scale(500, 8000)):
             ops += gen_scenario(ctx.rng)
     impl = ctx.go_run(binary, "TestVerifC41", ops)
     crash = ctx.last_go_crash
